@@ -8,6 +8,18 @@ ROOT = os.path.dirname(os.path.dirname(os.path.abspath(__file__)))
 props = [json.loads(l) for l in open(os.path.join(ROOT, "properties.jsonl"))]
 
 CHECKS = {
+    "C01": dict(
+        text="Source trees are built on a real directory covering the input classes of the property (boundary sizes, zero / "
+             "periodic / random content, a file equal to a directory's serialisation, arbitrary-byte names, symlinks incl. non-UTF-8 "
+             "targets, hard links, empty and 12-deep directories, special mode bits, nanosecond / negative / post-2038 mtimes) and "
+             "backed up through LocalSource under 8 configurations (v1/v2, compression levels, Rabin triples, fixed sizes down to 1 "
+             "byte, pack sizes from 1 byte). RoundTripTrace.tla compares the projection of the source taken from the file system "
+             "with restore-to-disk, ls + dump, ranged reads and requires a clean check. Packer.tla / Repo.tla give the design-level "
+             "argument that no accepted input is dropped by the dedup filters and that a completed backup is readable.",
+        note="Codec fidelity (zstd, AES, JSON escaping) is outside what the TLA+ model states: for it the evidence is the sampled "
+             "conformance run. Ownership, xattrs and special files are not compared.",
+        technique="TLC trace validation of source-vs-read-back projections for generated trees x configurations; TLC pipeline model",
+        design="4/C01"),
     "C13": dict(
         text="Packer.tla (TLC): every interleaving of the two packer threads, their writer actors (bounded queues) and finalize is "
              "deadlock-free, terminates under weak fairness, drops nothing submitted and leaves no orphan pack. The same backup and "
